@@ -15,7 +15,7 @@ from .c03 import contents_stores, is_attr, same_object
 from . import targets
 from .. import uscan
 
-UNIT_CATS = ('convert-from-unit', 'sum-mix', 'add-units', 'to-storage', 'from-storage', 'qstr', 'storage-label',
+UNIT_CATS = ('convert-from-unit', 'sum-mix', 'add-units', 'to-storage', 'from-storage', 'qstr', 'storage-label', 'round-then-scale',
              'store-volume', 'store-contents', 'compare-units', 'std-format')
 
 
